@@ -1234,6 +1234,12 @@ func toString(v interface{}) string {
 		return string(val)
 	case fmt.Stringer:
 		return val.String()
+	case Node:
+		return ""
+	}
+
+	if s, ok := textWithoutAddress(v); ok {
+		return s
 	}
 
 	return fmt.Sprintf("%v", v)
